@@ -473,10 +473,9 @@ fn replay_fresh(exe: &std::path::Path, path: &str) -> Option<bool> {
     match out.status.code() {
         Some(0) => Some(false),
         Some(1) => Some(true),
-        _ => {
-            // process died: for crash-type violations that *is* the failure
-            Some(true)
-        }
+        Some(_) => None,
+        // killed by a signal: for crash-type violations that *is* the failure
+        None => Some(true),
     }
 }
 
@@ -591,10 +590,19 @@ pub fn supervisor_main(check: &dyn Check, tier: Tier, seed: u64) -> i32 {
     let mut n_viol = 0u64;
     let mut exit = 0;
     unknown.sort_by_key(|(_, v)| v.size);
+    if std::env::var("BPAFMC_SIGS").is_ok() {
+        for (n, v) in &unknown {
+            println!("SIG {} x{} case={}", v.sig_key(), n, v.case.to_string().chars().take(300).collect::<String>());
+        }
+    }
     let mut printed = 0;
     for (n, v) in &unknown {
         n_viol += n;
         if printed >= 25 {
+            if printed < 400 {
+                write_replay(v, *n);
+                printed += 1;
+            }
             continue;
         }
         let path = write_replay(v, *n);
